@@ -18,6 +18,7 @@ mod ops;
 mod sweep;
 mod tok;
 mod util;
+mod watchdog;
 
 use util::{Args, Ctx};
 
@@ -109,6 +110,7 @@ fn main() {
     let args = Args::parse(&argv);
     tok::install_panic_hook(args.verbose);
     let mut ctx = Ctx::new(args.clone());
+    watchdog::start(args.num("hang-cpu-s", 30));
     let ns = args.list("n", &[0, 1, 2, 3, 4]);
     let elem = args.get("elem").unwrap_or("tok").to_string();
     // A panic that escapes a case comes either from the crate under test (called by the harness'
